@@ -1,6 +1,7 @@
 package fs
 
 import (
+	"archive/tar"
 	"bytes"
 	"database/sql"
 	"io"
@@ -110,6 +111,28 @@ func (f *File) syncWithoutLocking() error {
 	}
 
 	if f.writeBuf != nil {
+		// The entry can have been removed, moved away or replaced by a directory while this handle was open. Like the
+		// content of an unlinked file, what the handle holds then has nowhere to go: writing it would bring the entry back
+		existingFile, err := inventory.Stat(
+			f.metadata,
+
+			f.path,
+			false,
+
+			nil,
+		)
+		if err != nil {
+			if err == sql.ErrNoRows {
+				return nil
+			}
+
+			return err
+		}
+
+		if existingFile.Typeflag != tar.TypeReg {
+			return nil
+		}
+
 		// Flushing reads the write buffer from its start, so remember where the handle is
 		curr, err := f.writeBuf.Seek(0, io.SeekCurrent)
 		if err != nil {
